@@ -25,6 +25,8 @@ def harnesses():
     for m in re.finditer(r"tuple_rt!\((\w+),", src):
         out["C12"].append(m.group(1))
     out["C12"] = [h for h in out["C12"] if not h.startswith("$")]
+    # feature-gated value types (cargo feature `types`): thorough tier
+    out["C12_types"] = re.findall(r"boxed!\((ft_\w+),", src)
     return out
 
 
@@ -68,6 +70,7 @@ def check(prop, tier, seed, P):
         runs.append(("default features", None, names))
         if tier == "thorough":
             runs.append(("feature hashable-value (custom PartialEq used by Option<T>::try_from)", "hashable", names))
+            runs.append(("feature-gated value types: uuid, chrono x5, time x4, rust_decimal, mac_address, ipnetwork (v4, v6)", "types", hs["C12_types"]))
     else:
         runs.append(("feature hashable-value", "hashable", hs["C18"]))
     results = []
